@@ -14,11 +14,15 @@
 (* MC_AyThreads); the views are the ones the thread itself read from the    *)
 (* library's slots at that moment.                                          *)
 (*                                                                          *)
-(* The threads of the specification take the line-grain steps of AyThreads  *)
-(* in any order; a step that completes a group must be the next event of    *)
-(* the log (same thread, same step name, same api kind) and must leave the  *)
-(* thread with the logged views and node count (Soft = FALSE), so a trace   *)
-(* is accepted iff some interleaving of the specification explains it.      *)
+(* The threads of the specification take the line-grain steps of AyThreads; *)
+(* a step that completes a group must be the next event of the log (same    *)
+(* thread, same step name, same api kind) and must leave the thread with    *)
+(* the logged views, node count and node (Soft = FALSE), so a trace is      *)
+(* accepted iff an interleaving of the specification explains it.  The      *)
+(* steps inside a group are taken when the group's event is the next one    *)
+(* of the log (a partial-order reduction: with thread-local slots, which is *)
+(* the only configuration traces are validated against, the inner steps of  *)
+(* one thread commute with every step of the others).                       *)
 (* With Soft = TRUE (second pass over rejected traces) differing views do   *)
 (* not block: the first disagreement is recorded in verdict instead, and    *)
 (* the position reached is printed, so that verdicts are total.             *)
@@ -32,7 +36,8 @@ EXTENDS AyThreads, Json, IOUtils
 CONSTANT Soft
 
 Traces == ndJsonDeserialize(IOEnv.TRACE_FILE)
-TraceJobs == {Traces[k].jobs : k \in DOMAIN Traces}
+\* JobAssignments is bound to this set (membership test only: the job is fixed by the trace before Init is evaluated)
+AnyAssignment == [Threads -> [name : STRING, n : Nat, fail : BOOLEAN, inc : STRING, incn : Nat, safe : BOOLEAN, build : BOOLEAN]]
 
 VARIABLES tid, l, tga, tgl, tgk, verdict, pv
 tvars == <<tid, l, tga, tgl, tgk, verdict, pv>>
@@ -41,9 +46,9 @@ allvars == <<vars, tvars>>
 Ev == Traces[tid].ev
 Fin == Traces[tid].fin
 
-TInit == /\ Init
-         /\ tid \in DOMAIN Traces
+TInit == /\ tid \in DOMAIN Traces
          /\ job = Traces[tid].jobs
+         /\ Init
          /\ l = 1
          /\ tga = [t \in Threads |-> "none"]
          /\ tgl = [t \in Threads |-> FALSE]
@@ -60,6 +65,7 @@ ViewsAgree(t, e) == /\ ViewFile(t)' = e[4] /\ ViewSafe(t)' = e[5] /\ ViewApi(t)'
 LoggedNodeOk(t, e) == e[2] = "NewNode" => (e[8] = OwnFileNow(t) /\ e[9] = OwnSafeNow(t))
 
 TStep(t) ==
+    /\ l <= Len(Ev) /\ Ev[l][1] = t
     /\ StepOf(t)
     /\ LET lbl == pc[t]
            a2 == IF tga[t] = "none" /\ lbl \in SlotLabels THEN lbl ELSE tga[t]
@@ -73,8 +79,7 @@ TStep(t) ==
           ELSE /\ tga' = [tga EXCEPT ![t] = "none"]
                /\ tgl' = [tgl EXCEPT ![t] = FALSE]
                /\ tgk' = [tgk EXCEPT ![t] = "none"]
-               /\ l <= Len(Ev)
-               /\ Ev[l][1] = t /\ Ev[l][2] = StepName(a2, l2) /\ Ev[l][3] = k2
+               /\ Ev[l][2] = StepName(a2, l2) /\ Ev[l][3] = k2
                /\ Soft \/ ViewsAgree(t, Ev[l])
                /\ l' = l + 1
                /\ verdict' = IF verdict = "ok" /\ ~ViewsAgree(t, Ev[l]) THEN "views" ELSE verdict
